@@ -29,7 +29,7 @@ FUNCTIONS_ENCODED = [
     'PITConv1d.export', 'PITConv2d.export', 'PITLinear.export', 'PIT.summary', 'PIT.export', 'pit/graph.py convert(export)',
     'build_shared_features_map (run natively at construction)']
 BOUNDS = {
-    'quick': 'layer: K=1..12, C=1..3; nets: T1 K=1..8 d0 in {1,2} C=2, A1, T2, K1(s+s), D2, L1, R2 at smallest sizes',
+    'quick': 'layer: K=1..12, C=1..3; nets: T1 K=1..8 d0 in {1,2} C=2, A1, T2, K1(s+s), D2, L1, R2 at smallest sizes; O1 (heads returned as dict / nested tuple / flat tuple), R4; exported output shapes also compared with the user\'s original model',
     'thorough': 'layer: K=1..16, C=1..6; nets: T1 K=1..12 x d0=1..3 x stride 1..2, A1 (+depthwise), T2 fold_bn on/off, K1 all origin pairs, K2, D2 pools, L1, R2',
 }
 OUTSIDE = ['float32 overflow of mask parameters (|v| > 1e37): reals have no overflow', 'architectures outside the grammar',
